@@ -540,6 +540,12 @@ def random_pkg(rng, cfg: GenCfg) -> Pkg:
                 m.decls.append(e)
                 if not e.name.startswith("_"):
                     public_classes.append((m, e.name))  # enums are types too
+        if cfg.docs and rng.random() < 0.4:
+            # the module ends with a documented declaration that has no member at all
+            if cfg.enums and rng.random() < 0.4 and not any(is_private_name(s_) for s_ in (*home, m.name)):
+                m.decls.append(En(names.fresh("E", cls=True), [], doc="An enum without members."))
+            else:
+                m.decls.append(Cls(names.fresh("C", cls=True), doc="A class without members."))
         pkg.modules.append(m)
     if cfg.twins and len(pkgs) > 1:
         for m in list(pkg.modules):
